@@ -353,7 +353,7 @@ VARIANTS_OF = {
     "C15": {"quick": ["default", "be:idn"], "thorough": ["default", "be:idn", "be:idnkit"]},
     "C07": {"quick": ["default", "underscore", "be:idn"], "thorough": ["default", "underscore", "be:idn", "be:idnkit"]},
     "C16": {"quick": ["default", "extra", "be:idnkit+extra"], "thorough": ["default", "extra", "be:idnkit+extra", "be:idn+extra"]},
-    "C06": {"quick": ["default", "extra"], "thorough": ["default", "extra", "all3"]},
+    "C06": {"quick": ["default", "extra", "uchar"], "thorough": ["default", "extra", "all3", "uchar"]},
     "C17": {"quick": ["default", "rfc20", "rfc5322", "underscore", "rebuilt"],
             "thorough": ["default", "rfc20", "rfc5322", "underscore", "rfc20+rfc5322", "rfc20+underscore", "rfc5322+underscore", "all3", "rebuilt"]},
 }
@@ -1955,7 +1955,7 @@ def c06(ctx):
             ctx.K("local%d" % m, v, ["L %d %s %s" % (m, hx(s), hx(gen.AT)) for s in loc if 0 not in s] + ["L %d %s %s" % (m, hx(s), hx(gen.NUL)) for s in loc[::7] if 0 not in s])
         ctx.K("domain", v, ["D %s 00" % hx(s) for s in dom if 0 not in s])
         ctx.K("special", v, ["S %s" % hx(s) for s in dom[::2] if 0 not in s])
-        ctx.K("tld", v, ["T %s" % hx(s) for s in dom[::5] if 0 not in s])
+        ctx.K("tld", v, ["T %s" % hx(s) for s in dom[::5] if 0 not in s] + ["T %s" % hx(bytes([b0]) + t) for b0 in range(1, 256) for t in (b"", b"om", b"\xff")])
         # the two address parsers themselves: octet values that wrap in 32/64-bit arithmetic, long digit runs, every IPv6 shape
         ctx.K("ipv4", v, ["4 %s %s" % (hx(a), hx(b"]\0")) for a in gen.ipv4_strings("quick", rng)[:: (2 if ctx.tier == "quick" else 1)] if 0 not in a])
         ctx.K("ipv6", v, ["6 %s %s" % (hx(a), hx(b"]\0")) for a in gen.ipv6_shapes("quick", rng)[:: (4 if ctx.tier == "quick" else 1)] if 0 not in a])
@@ -2014,7 +2014,14 @@ def c06(ctx):
             "local-utf8": lambda n: Lo("é".encode() * (n // 2)), "local-folding": lambda n: Lo(b'"' + b"\r\n " * (n // 3) + b'"'),
             "ipv6-hexrun": lambda n: ["6 %s %s" % (hx(b"1::" + b"f" * n), hx(b"]\0"))], "ipv4-octets": lambda n: E(b"a@[" + b"1." * (n // 2) + b"]"),
             "domain-hyphen": lambda n: E(b"a@" + b"a-" * (n // 2) + b"a.com"), "special-labels": lambda n: E(b"a@" + b".".join([b"x"] * (n // 2)) + b".test"),
-            "tld-miss": lambda n: E(b"a@" + b"x." * (n // 2) + b"zzzzzz")}
+            "tld-miss": lambda n: E(b"a@" + b"x." * (n // 2) + b"zzzzzz"),
+            # the address parsers called directly on NUL-terminated strings (no ']' to stop a look-ahead early)
+            "ipv4-zeros-direct": lambda n: ["4 %s 00" % hx(b"0." * (n // 2) + b"0")], "ipv4-ones-direct": lambda n: ["4 %s 00" % hx(b"1." * (n // 2) + b"1")],
+            "ipv4-zerodigits-direct": lambda n: ["4 %s 00" % hx(b"0.0.0." + b"0" * n)], "ipaddr-zeros-direct": lambda n: ["A %s 00" % hx(b"0." * (n // 2) + b"0")],
+            "ipv6-zeros-direct": lambda n: ["6 %s 00" % hx(b"::0.0" + b".0" * (n // 2))], "tld-direct": lambda n: ["T %s" % hx(b"c" * n)],
+            "special-direct": lambda n: ["S %s" % hx(b"a." * (n // 2) + b"example.com")], "domain-direct": lambda n: ["D %s 00" % hx(b"a-b." * (n // 4) + b"com")]}
+    toggles = {"ipv4-zeros-direct": "is_ipv4", "ipv4-ones-direct": "is_ipv4", "ipv4-zerodigits-direct": "is_ipv4", "ipaddr-zeros-direct": "is_ipaddr", "ipv6-zeros-direct": "is_ipv6",
+               "tld-direct": "is_tld", "special-direct": "is_special_domain", "domain-direct": "is_ascii_domain"}
     lin = {}
     for fam, mk in fams.items():
         counts = []
@@ -2023,7 +2030,7 @@ def c06(ctx):
             with open(fi, "w") as f:
                 f.write("\n".join(mk(n)) + "\n")
             cgout = fi + ".cg"
-            p = subprocess.run(["valgrind", "--tool=callgrind", "--callgrind-out-file=" + cgout, "--toggle-collect=" + ("is_*_local" if fam.startswith("local") else "is_ipv6" if fam.startswith("ipv6") else "is_*_email"), ctx.drive("x:plain"), fi, fi + ".out", fi + ".lean"],
+            p = subprocess.run(["valgrind", "--tool=callgrind", "--callgrind-out-file=" + cgout, "--toggle-collect=" + (toggles.get(fam) or ("is_*_local" if fam.startswith("local") else "is_ipv6" if fam.startswith("ipv6") else "is_*_email")), ctx.drive("x:plain"), fi, fi + ".out", fi + ".lean"],
                                stdout=subprocess.PIPE, stderr=subprocess.PIPE)
             ir = None
             if os.path.exists(cgout):
@@ -2032,7 +2039,7 @@ def c06(ctx):
                         ir = int(line.split()[1]); break
             counts.append(ir)
         lin[fam] = counts
-        ctx.evals += len(sizes) * 4
+        ctx.evals += len(sizes) * len(mk(8))
         for a, b, n in zip(counts, counts[1:], sizes[1:]):
             if a and b and b > 2.3 * a + 20000:
                 ctx.S("work is not linear in the input length (instructions more than double when the length doubles)", op="E * 1 %s..." % fam, family=fam, sizes=sizes, instructions=counts)
